@@ -214,7 +214,20 @@ class Evaluator:
             ps = hir.place_str(e)
             if ps is not None and ps in env:
                 return env[ps]
+            base = None
+            try:
+                base = self.ev(e["e"], env)
+            except Unrecognised:
+                pass
+            if base is not None and base[0] == "rec" and e["name"] in base[1]:
+                return base[1][e["name"]]
             raise Unrecognised(f"read of untracked place {ps}")
+        if k == "index":
+            b_ = hir.simp(e["e"])
+            i_ = self.ev(e["i"], env)
+            if b_.get("k") == "def" and i_[0] == "int":
+                return ("idx", b_["path"], i_[1])
+            raise Unrecognised("indexing outside a constant table")
         if k == "closure":
             return ("closure", e, env)
         if k == "tuple" and not e["es"]:
